@@ -52,18 +52,16 @@ Proof.
   intros m src reloc out H Hne. unfold GM.extract_ok in H.
   destruct (extract_ref m src (GM.strip_slash reloc) (has_suffix_slash reloc)) as [|e E] eqn:EE; [congruence|].
   apply andb_prop in H. destruct H as [Hv H]. destruct (parse_manifest out) as [m'|] eqn:Ep; [|discriminate].
-  apply andb_prop in H. destruct H as [_ H]. exists m'. split; [exact Hv|]. split; [exact Ep|].
+  apply andb_prop in H. destruct H as [_ H]. exists m'. split; [exact Hv|]. split; [reflexivity|].
   intros st d s Hin. rewrite forallb_forall in H. specialize (H (d, s) Hin). cbn in H.
   unfold file_bytes. apply canon_eqb_bytes. exact H.
 Qed.
 
 (* the shared-MD5 formulation of FS.check_case is the plain one *)
 Theorem fs_check_case_eq : forall c,
-  FS.check_case c =
-  ((if FS.model_b c then 0 else 1) +
-   (if FS.spec_always c && FS.spec_valid c then (if FS.spec_reject c then 0 else if FS.known_F15_b c then 4 else 2) else 2))%N.
+  FS.check_case c = ((if FS.model_b c then 0 else 1) + (if FS.spec_b c then 0 else 2))%N.
 Proof.
-  intros c. unfold FS.check_case, FS.model_b, FS.spec_valid, pdh.
+  intros c. unfold FS.check_case, FS.model_b, FS.spec_b, FS.spec_valid, pdh.
   destruct (String.eqb (strip_manifest (FS.c_txt c)) (pdh_text (FS.c_txt c))) eqn:E.
   - apply String.eqb_eq in E. rewrite E. reflexivity.
   - reflexivity.
